@@ -18,6 +18,8 @@ import (
 //vp:all stub (*github.com/patrickmn/go-cache.Cache).Get = vpCacheGet
 //vp:all stub (*github.com/patrickmn/go-cache.Cache).Set = vpCacheSet
 //vp:all stub (*github.com/patrickmn/go-cache.Cache).Delete = vpCacheDelete
+//vp:all stub (*github.com/patrickmn/go-cache.Cache).ItemCount = vpCacheItemCount
+//vp:all model (*github.com/patrickmn/go-cache.cache).ItemCount = vpCacheItemCount
 //vp:all model (*github.com/patrickmn/go-cache.cache).Get = vpCacheGet
 //vp:all model (*github.com/patrickmn/go-cache.cache).Set = vpCacheSet
 //vp:all model (*github.com/patrickmn/go-cache.cache).Delete = vpCacheDelete
@@ -64,6 +66,17 @@ func vpCacheGet(c *cache.Cache, k string) (interface{}, bool) {
 }
 func vpCacheSet(c *cache.Cache, k string, v interface{}, d time.Duration) { vpCacheItems[k] = v }
 func vpCacheDelete(c *cache.Cache, k string)                             { delete(vpCacheItems, k) }
+
+// ItemCount (go-cache documentation): the number of items in the cache, INCLUDING expired items that the
+// janitor has not removed yet — other clients' abandoned exchanges of the last minutes, any number of them.
+func vpCacheItemCount(c *cache.Cache) int {
+	stale := vpInt("expired-entries-not-yet-purged")
+	vpAssume(vpAnd(stale >= 0, stale <= 100000))
+	return len(vpCacheItems) + stale
+}
+
+// vpCtxOf takes the context out of getContext's results, however many there are.
+func vpCtxOf(c *ntlmContext, rest ...interface{}) *ntlmContext { return c }
 
 var vpReqNo int
 
